@@ -732,6 +732,16 @@ def vf_cmp(op, a, b):
     return f(a, b)
 
 
+def vf_div(a, b):
+    """R6: a / b; in symbolic mode int / int is the exact rational (real-number semantics), otherwise Python's a / b."""
+    if Mode.symbolic and isinstance(a, (int, _np.integer)) and isinstance(b, (int, _np.integer)) and not isinstance(a, (bool, _np.bool_)) \
+            and not isinstance(b, (bool, _np.bool_)) and int(b) != 0:
+        from fractions import Fraction
+        fr = Fraction(int(a), int(b))
+        return int(fr) if fr.denominator == 1 else fr
+    return a / b
+
+
 BUILTIN_SHIMS = {
     "isinstance": vf_isinstance, "int": vf_int, "float": vf_float, "max": vf_max, "min": vf_min,
     "round": vf_round, "range": vf_range,
